@@ -59,11 +59,13 @@ def ws(o, t, newline_ok=True, must=False):
     elif n == 4:
         o.w("\n  " if newline_ok else " ")
     else:
-        c = t.pick(3)
+        c = t.pick(9)
         if c == 0:
             o.w(" /* c{o}m \"m\" */ ")
         elif c == 1 and newline_ok:
             o.w(" // line { comment\n ")
+        elif c >= 3:        # stars and slashes inside a block comment, runs of stars before the closing slash
+            o.w([" /***/ ", " /** doc **/ ", " /* * / */ ", " /*/ */ ", " /* a * b ***/ ", " /****/ "][c - 3])
         else:
             o.w(" /**/ ")
 
